@@ -110,6 +110,22 @@ func (ex *Exec) prim(fn *ssa.Function, args []Value) (Value, bool) {
 		return nil, true
 	case "vpNote":
 		return nil, true
+	case "vpAll", "vpAny":
+		sl := args[0].(Slice)
+		r := smt.BoolC(fn.Name() == "vpAll")
+		for i := 0; i < sl.Len; i++ {
+			c := term(ex.load(sl.A.E[sl.Off+i]))
+			if fn.Name() == "vpAll" {
+				r = smt.And(r, c)
+			} else {
+				r = smt.Or(r, c)
+			}
+		}
+		return r, true
+	case "vpImplies":
+		return smt.Implies(term(args[0]), term(args[1])), true
+	case "vpIff":
+		return smt.Eq(term(args[0]), term(args[1])), true
 	case "vpModulus":
 		return ex.primModulus(ex.str(args[0]), term(args[1])), true
 	case "vpAtom":
